@@ -215,7 +215,37 @@ func c10Programs(thorough bool) []c10Prog {
 			"> {t: total, i: i, f: await f, m: length(a)}")
 		add(c10Render(fmt.Sprintf("%s%d", c10PoolPrefix, pad), lines))
 	}
+	// operand sweep for the counted instructions: object literals with n fields, array literals with n elements and
+	// calls with n arguments, each directly followed by a jump (the then-branch of an if/else, a match arm), for every n
+	// that is also an opcode value. Round trip only.
+	for _, n := range c10CountSweep(thorough) {
+		var fields, elems []string
+		for k := 0; k < n; k++ {
+			fields = append(fields, fmt.Sprintf("f%d: %d", k, k))
+			elems = append(elems, fmt.Sprint(k))
+		}
+		add(c10Render(fmt.Sprintf("%scount-%d", c10PoolPrefix, n), []string{
+			"$ y = 0", "$ z = 0",
+			"if b {", "  y = {" + strings.Join(fields, ", ") + "}", "} else {", "  y = 1", "}",
+			"if b {", "  z = [" + strings.Join(elems, ", ") + "]", "} else {", "  z = 2", "}",
+			"$ r = match n {", "  1 => {" + strings.Join(fields, ", ") + "}", "  _ => [" + strings.Join(elems, ", ") + "]", "}",
+			"> {y: y, z: length(z), r: r}"}))
+	}
+	add(c10Render(c10PoolPrefix+"match-arm-one-field-object", []string{"$ r = match n {", "  5 => {k: n}", "  6 => {j: s}", "  _ => {d: 0}", "}", "> r"}))
 	return ps
+}
+
+// c10CountSweep: operand values of BUILD_OBJECT / BUILD_ARRAY that coincide with opcode bytes (quick: those with an
+// operand or that jump, and their neighbours; thorough: every count 0..190)
+func c10CountSweep(thorough bool) []int {
+	if thorough {
+		var out []int
+		for k := 0; k <= 190; k++ {
+			out = append(out, k)
+		}
+		return out
+	}
+	return []int{0, 1, 2, 3, 0x10, 0x28, 0x40, 0x41, 0x42, 0x4f, 0x50, 0x51, 0x52, 0x53, 0x54, 0x55, 0x56, 0x61, 0x62, 0x63, 0x70, 0x71, 0x80, 0x81, 0x90, 0xa0, 0xb0, 0xb1}
 }
 
 const c10PoolPrefix = "pool/"
